@@ -17,7 +17,7 @@ pub const META_C06: PropMeta = PropMeta {
 
 pub const META_C07: PropMeta = PropMeta {
     level: "exploration",
-    rule: "same input families as C06, restricted/weighted to size, largesize, count, length, offset and version fields (zero, tiny and huge values at every nesting level). Oracle per call, from an operation-counting stream with a hard budget: open calls (read_header / read_fragment_header) must stay within 24*n + 65536 stream operations and bytes (a loop that does not consume input exhausts every finite budget and is cut off deterministically); every later call within 64 operations and n + sample size + 64 bytes; thread CPU time of any call <= 1 s for these inputs (n <= 200 KiB; normal: microseconds), confirmed by a second execution. A worker that stops making progress is killed by the supervisor and the case re-confirmed alone. Non-trivial = a size/count/length/offset/version field holds a value that is not its true value and the parser performed >= 4 operations. Distinct = content hash.",
+    rule: "same input families as C06, restricted/weighted to size, largesize, count, length, offset and version fields (zero, tiny and huge values at every nesting level). Oracle per call, from an operation-counting stream with a hard budget: open calls (read_header / read_fragment_header) must stay within 24*n + 65536 stream operations and bytes (a loop that does not consume input exhausts every finite budget and is cut off deterministically); every later call within 64 + (n + sample size)/64 operations and n + sample size + 64 bytes; thread CPU time of any call <= 1 s for these inputs (n <= 200 KiB; normal: microseconds), confirmed by a second execution. A worker that stops making progress is killed by the supervisor and the case re-confirmed alone. Non-trivial = a size/count/length/offset/version field holds a value that is not its true value and the parser performed >= 4 operations. Distinct = content hash.",
     assumptions: &["CPU-linearity is only a blow-up detector (>= 10^5 x normal cost)"],
 };
 
@@ -73,8 +73,11 @@ fn c07_call(c: &CallRec) -> Option<Failure> {
             return Some(Failure::new(format!("c07:bytes@{}", name), format!("{} on {} bytes transferred {} bytes (bound {})", name, c.n, c.bytes, bound)));
         }
     } else {
-        if c.budget_hit || c.ops > CALL_OPS {
-            return Some(Failure::new(format!("c07:ops@{}", name), format!("{} performed {} stream operations (bound {})", name, c.ops, CALL_OPS)));
+        // linear in the input and the sample, as the property states (an implementation may read a
+        // sample in small pieces): 64 + (n + sample size) / 64 operations
+        let bound = CALL_OPS + (c.n + c.sample_len) / 64;
+        if c.budget_hit || c.ops > bound {
+            return Some(Failure::new(format!("c07:ops@{}", name), format!("{} performed {} stream operations (bound {})", name, c.ops, bound)));
         }
         if c.bytes > c.n + c.sample_len + 64 {
             return Some(Failure::new(format!("c07:bytes@{}", name), format!("{} transferred {} bytes for a {}-byte sample of a {}-byte input", name, c.bytes, c.sample_len, c.n)));
